@@ -296,6 +296,29 @@ def run(ctx):
     else:
         ctx.fail("C06.R6", "terminal", "psutil/_pslinux.py", 0, "Process.terminal",
                  f"terminal() = `{pretty(tt)[:140]}`")
+    # each device-map entry is built from ITS device node only: what is stored for
+    # a name may not still hold the stat record of the previous name (a node that
+    # vanished between glob() and stat() must add nothing)
+    from ..core.analysis import stale_in_loop
+    gm = repo.func("_psposix", "get_terminal_map")
+    gcfg_ = A.cfg(gm)
+    nst = 0
+    for lp in [x_ for x_ in ast.walk(gm.node) if isinstance(x_, ast.For)]:
+        for st_ in [y_ for b_ in lp.body for y_ in ast.walk(b_)
+                    if isinstance(y_, ast.Assign) and any(isinstance(t_, ast.Subscript)
+                                                          for t_ in y_.targets)]:
+            nst += 1
+            stale = stale_in_loop(gcfg_, lp, st_, gm.node)
+            if stale:
+                ctx.fail("C06.R6", "terminal-map:per-entry-state", gm.file, st_.lineno, gm.qual,
+                         f"the entry stored for a device node can carry {stale} over from the "
+                         f"PREVIOUS node: on some path of the iteration they are not assigned "
+                         f"before the store (a node that cannot be stat()ed takes its "
+                         f"neighbour's device number)")
+            else:
+                ctx.ok("C06.R6", "terminal-map:per-entry-state",
+                       sample="every name stored is assigned on every path of the iteration")
+    ctx.require(nst >= 1, "get_terminal_map: no per-node store found")
     # ------------------------------------------------------------------- R9
     ctx.rule("C06.R9", "status-file slots: uids/gids are (real, effective, saved) = "
              "groups 1..3 of the Uid:/Gid: line in that order; num_ctx_switches is "
